@@ -25,8 +25,15 @@ theorem refused_page_atomic (grow : Nat → Nat) (fresh : Nat) (s : DynamicPool)
       (DynamicPool.calloc grow fresh s c k m).2.2.liveT s.triple = m.liveT s.triple) :=
   C13.refused_page_atomic grow fresh s m
 
-/-- **continue**: a history that starts with a refused `malloc` continues, on the pool, exactly as
-the history without it run from the ledger the refusal left behind -/
+/-- a refused page leaves the fault flag alone too, and the other triple's blocks -/
+theorem refused_page_no_fault (grow : Nat → Nat) (fresh : Nat) (s : DynamicPool) (m : Mem) (h : s.Inv) :
+    (∀ n, (DynamicPool.malloc grow fresh s n m).2.2.fault = m.fault ∧
+          (DynamicPool.malloc grow fresh s n m).2.2.liveO s.triple = m.liveO s.triple) ∧
+    (∀ c k, (DynamicPool.calloc grow fresh s c k m).2.2.fault = m.fault ∧
+          (DynamicPool.calloc grow fresh s c k m).2.2.liveO s.triple = m.liveO s.triple) :=
+  ⟨fun n => (DynamicPool.malloc_ledger grow fresh s n m).2.2, fun c k => (DynamicPool.calloc_ledger grow fresh s c k m h).2.2⟩
+
+/-- the first step of a history, unfolded -/
 theorem refused_malloc_skipped (grow : Nat → Nat) (fresh : Nat) (s : DynamicPool) (n : Nat) (r : Bool)
     (ops : List Op) (m : Mem) (h : (DynamicPool.malloc grow fresh s n m).2.2.nrefused ≠ m.nrefused) :
     (DynamicPool.run grow fresh s (.malloc n r :: ops) m).1 =
@@ -36,6 +43,39 @@ theorem refused_malloc_skipped (grow : Nat → Nat) (fresh : Nat) (s : DynamicPo
   obtain ⟨e1, e2, _⟩ := (refused_page_atomic grow fresh s m).1 n h
   simp only [DynamicPool.run, DynamicPool.step, e1, e2]
   exact ⟨trivial, trivial⟩
+
+/-- **continue after a refused page**, for every schedule and a second ledger: if the `malloc`
+(resp. `calloc`) that starts a history is refused its page, the rest of the history returns the same
+pointers and ends in the same pool as the history *without* that call run on any ledger `m'` whose
+schedule is the one the refusal left behind — once the page allocator succeeds again the pool
+continues as if the refused request had never been made -/
+theorem continue_after_refusal (grow : Nat → Nat) (fresh : Nat) (s : DynamicPool) (n : Nat) (r : Bool)
+    (ops : List Op) (m m' : Mem) (h : (DynamicPool.malloc grow fresh s n m).2.2.nrefused ≠ m.nrefused)
+    (hs : m'.sched = (DynamicPool.malloc grow fresh s n m).2.2.sched) :
+    (DynamicPool.run grow fresh s (.malloc n r :: ops) m).1 = none :: (DynamicPool.run grow fresh s ops m').1 ∧
+    (DynamicPool.run grow fresh s (.malloc n r :: ops) m).2.2.1 = (DynamicPool.run grow fresh s ops m').2.2.1 := by
+  have h1 := refused_malloc_skipped grow fresh s n r ops m h
+  have h2 := DynamicPool.run_indep grow fresh ops s (DynamicPool.malloc grow fresh s n m).2.2 m' hs.symm
+  rw [h1.1, h1.2, h2.1, h2.2.2]
+  exact ⟨rfl, rfl⟩
+
+theorem continue_after_refused_calloc (grow : Nat → Nat) (fresh : Nat) (s : DynamicPool) (c k : Nat) (r : Bool)
+    (ops : List Op) (m m' : Mem) (h : (DynamicPool.calloc grow fresh s c k m).2.2.nrefused ≠ m.nrefused)
+    (hs : m'.sched = (DynamicPool.calloc grow fresh s c k m).2.2.sched) :
+    (DynamicPool.run grow fresh s (.calloc c k r :: ops) m).1 = none :: (DynamicPool.run grow fresh s ops m').1 ∧
+    (DynamicPool.run grow fresh s (.calloc c k r :: ops) m).2.2.1 = (DynamicPool.run grow fresh s ops m').2.2.1 := by
+  obtain ⟨e1, e2, _⟩ := (refused_page_atomic grow fresh s m).2 c k h
+  have h2 := DynamicPool.run_indep grow fresh ops s (DynamicPool.calloc grow fresh s c k m).2.2 m' hs.symm
+  simp only [DynamicPool.run, DynamicPool.step, e1, e2]
+  rw [h2.1, h2.2.2]
+  exact ⟨rfl, rfl⟩
+
+/-- results of every history depend on the ledger only through the refusal schedule -/
+theorem history_allocator_independent (grow : Nat → Nat) (fresh : Nat) (ops : List Op) (s : DynamicPool) (m m' : Mem)
+    (hs : m.sched = m'.sched) :
+    (DynamicPool.run grow fresh s ops m).1 = (DynamicPool.run grow fresh s ops m').1 ∧
+    (DynamicPool.run grow fresh s ops m).2.2.1 = (DynamicPool.run grow fresh s ops m').2.2.1 :=
+  ⟨(DynamicPool.run_indep grow fresh ops s m m' hs).1, (DynamicPool.run_indep grow fresh ops s m m' hs).2.2⟩
 
 /-- with an allocator that does not refuse, no `malloc` is refused -/
 theorem no_refusal (grow : Nat → Nat) (fresh : Nat) (s : DynamicPool) (n : Nat) (m : Mem) (hs : m.sched = []) :
@@ -70,9 +110,9 @@ theorem new_refused_iff (size ab fresh : Nat) (fixed packed : Bool) (t : Triple)
 theorem new_atomic (size ab fresh : Nat) (fixed packed : Bool) (t : Triple) (m : Mem)
     (h : (DynamicPool.new size fixed packed ab fresh t m).1 = .errAlloc) :
     (DynamicPool.new size fixed packed ab fresh t m).2.1 = none ∧
-    (DynamicPool.new size fixed packed ab fresh t m).2.2.liveT t = m.liveT t :=
-  ⟨(C13.new_refused size ab fresh fixed packed t m (by rw [h]; simp)).2.1,
-   (C13.new_refused size ab fresh fixed packed t m (by rw [h]; simp)).2.2.1⟩
+    (DynamicPool.new size fixed packed ab fresh t m).2.2.liveT t = m.liveT t ∧
+    (DynamicPool.new size fixed packed ab fresh t m).2.2.fault = m.fault :=
+  (C13.new_refused size ab fresh fixed packed t m (by rw [h]; simp)).2
 
 /-! Non-vacuity: a refusing schedule on a pool that must grow -/
 example :
